@@ -18,6 +18,10 @@ func main() {
 	switch os.Args[1] {
 	case "probe":
 		cmdProbe(a)
+	case "gen":
+		cmdGen(a)
+	case "fixture":
+		cmdFixture(a)
 	default:
 		fmt.Println("unknown sub-command", os.Args[1])
 		os.Exit(2)
